@@ -1371,9 +1371,14 @@ class OperatorComp(Operator):
         if out is None:
             return self.left(self.right(x))
         else:
-            tmp = (self.__tmp if self.__tmp is not None
-                   else self.right.range.element())
-            self.right(x, out=tmp)
+            if isinstance(self.right.range, Field):
+                # The intermediate result is a scalar, which cannot be
+                # computed in-place
+                tmp = self.right(x)
+            else:
+                tmp = (self.__tmp if self.__tmp is not None
+                       else self.right.range.element())
+                self.right(x, out=tmp)
             return self.left(tmp, out=out)
 
     @property
